@@ -159,7 +159,12 @@ def r2_provenance(chk, prog):
                                 "max_targets_size may be passed on (not another file's pinned length)"
                                 % (caller, sorted(map(repr, arg))), cctx.site(bb))
     chk.floor("R2", n, 7, "size-capped metadata fetch sites in lib.rs")
-    # cache.rs
+    r2_cache_provenance(chk, prog)
+
+
+def r2_cache_provenance(chk, prog):
+    """cache.rs: each metadata copy is bounded by the limit configured for that role (or the length the
+    timestamp pins for the snapshot) — never by another file's length (refuses legitimate files)"""
     cm = async_body(prog, "tough::cache::<impl tough::Repository>::cache_metadata_impl")
     cr = async_body(prog, "tough::cache::<impl tough::Repository>::cache_root_chain")
     table = {
